@@ -1,8 +1,724 @@
 package gvc
 
-// buildReplay turns the solver's model of a failed obligation into a Go test
-// against the real code and runs it.  Returns true when the real code exhibits
-// the failure.
+import (
+	"encoding/json"
+	"fmt"
+	"go/types"
+	"os"
+	"os/exec"
+	"path/filepath"
+	"regexp"
+	"sort"
+	"strconv"
+	"strings"
+	"time"
+
+	"golang.org/x/tools/go/ssa"
+)
+
+// InTree describes one symbolic input value (by the names of its SMT leaves)
+// so that a model can be turned into a Go expression.
+type InTree struct {
+	Kind   string    `json:"kind"`
+	GoType string    `json:"type"`
+	Term   string    `json:"term,omitempty"`
+	Nil    string    `json:"nil,omitempty"`
+	Len    string    `json:"len,omitempty"`
+	Off    string    `json:"off,omitempty"`
+	Cap    string    `json:"cap,omitempty"`
+	Blk    string    `json:"blk,omitempty"`
+	Arr    string    `json:"arr,omitempty"`
+	N      int64     `json:"n,omitempty"`
+	Fields []InField `json:"fields,omitempty"`
+	Elems  []*InTree `json:"elems,omitempty"`
+	Elem   *InTree   `json:"elem,omitempty"`
+	Why    string    `json:"why,omitempty"`
+}
+
+type InField struct {
+	Name string  `json:"name"`
+	T    *InTree `json:"t"`
+}
+
+type replayCtx struct {
+	pkg     *types.Package
+	imports map[string]string // path -> name
+	bad     []string
+}
+
+func (rc *replayCtx) typeStr(t types.Type) string {
+	return types.TypeString(t, func(p *types.Package) string {
+		if p == rc.pkg {
+			return ""
+		}
+		rc.imports[p.Path()] = p.Name()
+		return p.Name()
+	})
+}
+
+// inTree snapshots v (of static type t) in state st.
+func (u *Unit) inTree(st *State, rc *replayCtx, v Val, t types.Type, depth int) *InTree {
+	ts := rc.typeStr(t)
+	if depth > 8 {
+		return &InTree{Kind: "zero", GoType: ts}
+	}
+	switch x := v.(type) {
+	case *Term:
+		if x.Sort == SBool {
+			return &InTree{Kind: "bool", GoType: ts, Term: x.S}
+		}
+		return &InTree{Kind: "int", GoType: ts, Term: x.S}
+	case SliceV:
+		if x.List == nil {
+			arr := ""
+			if a, ok := u.inputArr[x.Blk.S]; ok {
+				arr = a.S
+			} else if r := st.regions[x.Blk.S]; r != nil && r.C.Fn == nil {
+				arr = r.C.S
+			}
+			return &InTree{Kind: "bytes", GoType: ts, Len: x.Len.S, Off: x.Off.S, Cap: x.Cap.S, Blk: x.Blk.S, Arr: arr}
+		}
+		n := &InTree{Kind: "list", GoType: ts, Len: x.Len.S, Blk: x.Blk.S}
+		et := t.Underlying().(*types.Slice).Elem()
+		for i := 0; i < 24; i++ {
+			c := u.cellIdx[fmt.Sprintf("list%d[%d]", x.List.ID, x.LOff+i)]
+			if c == nil {
+				n.Elems = append(n.Elems, &InTree{Kind: "zero", GoType: rc.typeStr(et)})
+				continue
+			}
+			if cv, ok := st.cells[c.ID]; ok {
+				n.Elems = append(n.Elems, u.inTree(st, rc, cv, et, depth+1))
+			} else {
+				n.Elems = append(n.Elems, &InTree{Kind: "zero", GoType: rc.typeStr(et)})
+			}
+		}
+		return n
+	case StrV:
+		if x.IsLit {
+			return &InTree{Kind: "strlit", GoType: ts, Term: strconv.Quote(x.Lit)}
+		}
+		arr := ""
+		if x.Arr.Fn == nil {
+			arr = x.Arr.S
+		}
+		return &InTree{Kind: "str", GoType: ts, Len: x.Len.S, Arr: arr}
+	case ArrV:
+		arr := ""
+		if x.Arr.Fn == nil {
+			arr = x.Arr.S
+		}
+		return &InTree{Kind: "arr", GoType: ts, N: x.N, Arr: arr}
+	case ArrRefV:
+		arr := ""
+		if a, ok := u.inputArr[x.Blk.S]; ok {
+			arr = a.S
+		}
+		return &InTree{Kind: "arr", GoType: ts, N: x.N, Arr: arr}
+	case StructV:
+		n := &InTree{Kind: "struct", GoType: ts}
+		for i, f := range x.F {
+			fld := x.T.Field(i)
+			if !fld.Exported() && fld.Pkg() != rc.pkg {
+				rc.bad = append(rc.bad, "unexported field "+fld.Name()+" of another package")
+			}
+			name := fld.Name()
+			n.Fields = append(n.Fields, InField{Name: name, T: u.inTree(st, rc, f, fld.Type(), depth+1)})
+		}
+		return n
+	case ArrTupleV:
+		n := &InTree{Kind: "arrtuple", GoType: ts}
+		for _, e := range x.E {
+			n.Elems = append(n.Elems, u.inTree(st, rc, e, x.T.Elem(), depth+1))
+		}
+		return n
+	case PtrV:
+		if x.Cell == nil || x.Blk != nil || len(x.Path) > 0 {
+			if x.Nil.IsBool && x.Nil.B {
+				return &InTree{Kind: "nil", GoType: ts}
+			}
+			rc.bad = append(rc.bad, "interior pointer input")
+			return &InTree{Kind: "nil", GoType: ts}
+		}
+		n := &InTree{Kind: "ptr", GoType: ts, Nil: x.Nil.S}
+		et := t.Underlying().(*types.Pointer).Elem()
+		if cv, ok := st.cells[x.Cell.ID]; ok {
+			n.Elem = u.inTree(st, rc, cv, et, depth+1)
+		} else {
+			n.Elem = &InTree{Kind: "zero", GoType: rc.typeStr(et)}
+		}
+		return n
+	case IfaceV:
+		if x.Nil.IsBool && x.Nil.B {
+			return &InTree{Kind: "nil", GoType: ts}
+		}
+		if x.Dyn == nil {
+			n := &InTree{Kind: "iface", GoType: ts, Nil: x.Nil.S}
+			return n
+		}
+		rc.bad = append(rc.bad, "concrete interface input")
+		return &InTree{Kind: "nil", GoType: ts}
+	case TimeV:
+		return &InTree{Kind: "time", GoType: ts, Term: x.NS.S}
+	case MapV:
+		return &InTree{Kind: "zero", GoType: ts, Why: "map input (nil used)"}
+	}
+	return &InTree{Kind: "zero", GoType: ts}
+}
+
+// collect the SMT terms whose values are needed.
+func (t *InTree) terms(out map[string]bool) {
+	if t == nil {
+		return
+	}
+	for _, s := range []string{t.Term, t.Nil, t.Len, t.Off, t.Cap, t.Blk} {
+		if s != "" && !isLiteralTerm(s) {
+			out[s] = true
+		}
+	}
+	for _, f := range t.Fields {
+		f.T.terms(out)
+	}
+	for _, e := range t.Elems {
+		e.terms(out)
+	}
+	t.Elem.terms(out)
+}
+
+func isLiteralTerm(s string) bool {
+	if s == "true" || s == "false" {
+		return true
+	}
+	_, err := strconv.ParseInt(s, 10, 64)
+	return err == nil || strings.HasPrefix(s, "(- ")
+}
+
+var negRe = regexp.MustCompile(`^\(-\s+(\d+)\)$`)
+
+func modelInt(m map[string]string, term string) (int64, bool) {
+	v := term
+	if mv, ok := m[term]; ok {
+		v = mv
+	}
+	v = strings.TrimSpace(v)
+	if mm := negRe.FindStringSubmatch(v); mm != nil {
+		i, err := strconv.ParseInt("-"+mm[1], 10, 64)
+		if err != nil {
+			// may be -2^63
+			if mm[1] == "9223372036854775808" {
+				return -9223372036854775808, true
+			}
+			return 0, false
+		}
+		return i, true
+	}
+	i, err := strconv.ParseInt(v, 10, 64)
+	if err != nil {
+		if u64, err2 := strconv.ParseUint(v, 10, 64); err2 == nil {
+			return int64(u64), true
+		}
+		return 0, false
+	}
+	return i, true
+}
+
+func modelBool(m map[string]string, term string) bool {
+	v := term
+	if mv, ok := m[term]; ok {
+		v = mv
+	}
+	return strings.TrimSpace(v) == "true"
+}
+
+// byteQueries lists (select arr idx) terms needed for the contents.
+func (t *InTree) byteQueries(m map[string]string, out map[string]bool) {
+	if t == nil {
+		return
+	}
+	switch t.Kind {
+	case "bytes":
+		if t.Arr != "" {
+			l, _ := modelInt(m, t.Len)
+			off, _ := modelInt(m, t.Off)
+			if l > 4096 {
+				l = 4096
+			}
+			for i := int64(0); i < l; i++ {
+				out[fmt.Sprintf("(select %s %d)", t.Arr, off+i)] = true
+			}
+		}
+	case "str":
+		if t.Arr != "" {
+			l, _ := modelInt(m, t.Len)
+			if l > 4096 {
+				l = 4096
+			}
+			for i := int64(0); i < l; i++ {
+				out[fmt.Sprintf("(select %s %d)", t.Arr, i)] = true
+			}
+		}
+	case "arr":
+		if t.Arr != "" {
+			for i := int64(0); i < t.N; i++ {
+				out[fmt.Sprintf("(select %s %d)", t.Arr, i)] = true
+			}
+		}
+	}
+	for _, f := range t.Fields {
+		f.T.byteQueries(m, out)
+	}
+	for _, e := range t.Elems {
+		e.byteQueries(m, out)
+	}
+	t.Elem.byteQueries(m, out)
+}
+
+func byteList(m map[string]string, arr string, start, n int64) string {
+	var sb strings.Builder
+	for i := int64(0); i < n; i++ {
+		v, _ := modelInt(m, fmt.Sprintf("(select %s %d)", arr, start+i))
+		if i > 0 {
+			sb.WriteString(", ")
+		}
+		fmt.Fprintf(&sb, "%d", uint8(v))
+	}
+	return sb.String()
+}
+
+// goExpr renders the value as a Go expression.
+func (t *InTree) goExpr(m map[string]string) string {
+	switch t.Kind {
+	case "int":
+		v, _ := modelInt(m, t.Term)
+		if strings.HasPrefix(t.GoType, "uint") || t.GoType == "byte" {
+			return fmt.Sprintf("%s(%d)", t.GoType, uint64(v))
+		}
+		return fmt.Sprintf("%s(%d)", t.GoType, v)
+	case "bool":
+		return fmt.Sprintf("%s(%v)", t.GoType, modelBool(m, t.Term))
+	case "strlit":
+		return fmt.Sprintf("%s(%s)", t.GoType, t.Term)
+	case "bytes":
+		if blk, ok := modelInt(m, t.Blk); ok && blk == 0 {
+			return fmt.Sprintf("%s(nil)", t.GoType)
+		}
+		l, _ := modelInt(m, t.Len)
+		off, _ := modelInt(m, t.Off)
+		cp, _ := modelInt(m, t.Cap)
+		if l > 4096 || cp > 1<<20 || off > 1<<20 {
+			return "GVC_TOO_LARGE"
+		}
+		data := ""
+		if t.Arr != "" {
+			data = byteList(m, t.Arr, off, l)
+		} else {
+			data = strings.TrimSuffix(strings.Repeat("0, ", int(l)), ", ")
+		}
+		return fmt.Sprintf("%s(gvcBytes(%d, %d, []byte{%s}))", t.GoType, off, cp, data)
+	case "str":
+		l, _ := modelInt(m, t.Len)
+		if l > 4096 {
+			return "GVC_TOO_LARGE"
+		}
+		data := ""
+		if t.Arr != "" {
+			data = byteList(m, t.Arr, 0, l)
+		} else {
+			data = strings.TrimSuffix(strings.Repeat("0, ", int(l)), ", ")
+		}
+		return fmt.Sprintf("%s([]byte{%s})", t.GoType, data)
+	case "arr":
+		if t.Arr == "" {
+			return fmt.Sprintf("%s{}", t.GoType)
+		}
+		return fmt.Sprintf("%s{%s}", t.GoType, byteList(m, t.Arr, 0, t.N))
+	case "struct":
+		var parts []string
+		for _, f := range t.Fields {
+			parts = append(parts, f.Name+": "+f.T.goExpr(m))
+		}
+		return fmt.Sprintf("%s{%s}", t.GoType, strings.Join(parts, ", "))
+	case "arrtuple":
+		var parts []string
+		for _, e := range t.Elems {
+			parts = append(parts, e.goExpr(m))
+		}
+		return fmt.Sprintf("%s{%s}", t.GoType, strings.Join(parts, ", "))
+	case "list":
+		if blk, ok := modelInt(m, t.Blk); ok && blk == 0 {
+			return fmt.Sprintf("%s(nil)", t.GoType)
+		}
+		l, _ := modelInt(m, t.Len)
+		if l > int64(len(t.Elems)) {
+			return "GVC_TOO_LARGE"
+		}
+		var parts []string
+		for i := int64(0); i < l; i++ {
+			parts = append(parts, t.Elems[i].goExpr(m))
+		}
+		return fmt.Sprintf("%s{%s}", t.GoType, strings.Join(parts, ", "))
+	case "ptr":
+		if modelBool(m, t.Nil) {
+			return fmt.Sprintf("(%s)(nil)", t.GoType)
+		}
+		et := strings.TrimPrefix(t.GoType, "*")
+		return fmt.Sprintf("func() %s { v := %s; _ = %s(v); return &v }()", t.GoType, t.Elem.goExpr(m), et)
+	case "nil":
+		return fmt.Sprintf("(%s)(nil)", t.GoType)
+	case "iface":
+		if modelBool(m, t.Nil) {
+			return fmt.Sprintf("(%s)(nil)", t.GoType)
+		}
+		if t.GoType == "error" {
+			return `error(fmt.Errorf("gvc replay error"))`
+		}
+		return "GVC_UNSUPPORTED_IFACE"
+	case "time":
+		v, _ := modelInt(m, t.Term)
+		return fmt.Sprintf("time.Unix(0, %d)", v)
+	}
+	// zero value
+	return fmt.Sprintf("*new(%s)", t.GoType)
+}
+
+// ReplaySpec is stored with a failed obligation so that the post-processing
+// step can build the test.
+type ReplaySpec struct {
+	Pkg      string            `json:"pkg"`      // import path
+	PkgName  string            `json:"pkg_name"`
+	Dir      string            `json:"dir"`      // relative to repo root
+	Func     string            `json:"func"`     // Go call target (Name or method name)
+	Recv     bool              `json:"recv"`
+	Lemma    bool              `json:"lemma"`
+	Clause   string            `json:"clause_func,omitempty"`
+	NResults int               `json:"nresults"`
+	Params   []*InTree         `json:"params"`
+	Imports  map[string]string `json:"imports"`
+	Bad      []string          `json:"unsupported,omitempty"`
+}
+
+// snapshotReplay is called when an obligation fails on a path.
+func (u *Unit) snapshotReplay(st *State, o *Obligation) {
+	if u.paramVals == nil || u.Target == nil || u.Target.Pkg == nil {
+		return
+	}
+	rc := &replayCtx{pkg: u.Target.Pkg.Pkg, imports: map[string]string{}}
+	rs := &ReplaySpec{Pkg: rc.pkg.Path(), PkgName: rc.pkg.Name(), Func: u.Target.Name(), Lemma: u.isSpecFile(u.Target)}
+	rs.Dir = strings.TrimPrefix(strings.TrimPrefix(rc.pkg.Path(), ModPath), "/")
+	rs.Recv = u.Target.Signature.Recv() != nil
+	rs.NResults = u.Target.Signature.Results().Len()
+	for i, p := range u.Target.Params {
+		rs.Params = append(rs.Params, u.inTree(st, rc, u.paramVals[i], p.Type(), 0))
+	}
+	rs.Imports = rc.imports
+	rs.Bad = rc.bad
+	o.Replay = rs
+}
+
+var preludeNames = []string{"assert", "assume", "implies", "seqeq", "cat", "sub", "val", "u16", "u32", "forall", "exists", "suffix", "within", "fresh", "same", "isnil"}
+
+// buildReplay: model -> Go test -> run against the real code.
 func buildReplay(p *Program, units []*UnitResult, o *Obligation, rf *replayFile, repo string) bool {
-	return false
+	rs := o.Replay
+	if rs == nil || o.Script == "" {
+		rf.Note = "no replay specification recorded for this obligation"
+		return false
+	}
+	// 1. scalar values
+	want := map[string]bool{}
+	for _, t := range rs.Params {
+		t.terms(want)
+	}
+	model, out := queryModel(o.Script, want)
+	rf.SolverOut = out
+	if model == nil {
+		rf.Note = "solver gave no model for the standalone query"
+		return false
+	}
+	// 2. byte contents
+	bq := map[string]bool{}
+	for _, t := range rs.Params {
+		t.byteQueries(model, bq)
+	}
+	if len(bq) > 0 {
+		m2, _ := queryModelPinned(o.Script, model, want, bq)
+		for k, v := range m2 {
+			model[k] = v
+		}
+	}
+	rf.Model = model
+	if len(rs.Bad) > 0 {
+		rf.Note = "inputs not expressible as Go literals: " + strings.Join(rs.Bad, "; ")
+		return false
+	}
+	// 3. Go test
+	var args []string
+	for _, t := range rs.Params {
+		e := t.goExpr(model)
+		if strings.Contains(e, "GVC_") {
+			rf.Note = "model value not replayable: " + e[:min(len(e), 60)]
+			return false
+		}
+		args = append(args, e)
+	}
+	var sb strings.Builder
+	fmt.Fprintf(&sb, "package %s\n\nimport (\n\t\"testing\"\n", rs.PkgName)
+	imps := map[string]string{}
+	for k, v := range rs.Imports {
+		imps[k] = v
+	}
+	body := strings.Join(args, "\n")
+	if strings.Contains(body, "fmt.") {
+		imps["fmt"] = "fmt"
+	}
+	if strings.Contains(body, "time.") {
+		imps["time"] = "time"
+	}
+	var ipaths []string
+	for k := range imps {
+		ipaths = append(ipaths, k)
+	}
+	sort.Strings(ipaths)
+	for _, k := range ipaths {
+		fmt.Fprintf(&sb, "\t%s %q\n", imps[k], k)
+	}
+	sb.WriteString(")\n\n")
+	sb.WriteString("func gvcBytes(off, capa int, data []byte) []byte {\n\tif capa < len(data) {\n\t\tcapa = len(data)\n\t}\n\tbuf := make([]byte, off+capa)\n\tcopy(buf[off:], data)\n\treturn buf[off : off+len(data) : off+capa]\n}\n\n")
+	sb.WriteString("func TestGvcReplay(t *testing.T) {\n")
+	sb.WriteString("\tdefer func() {\n\t\tif r := recover(); r != nil {\n\t\t\tif _, ok := r.(gvcAssumeFailed); ok {\n\t\t\t\tt.Log(\"GVC-REPLAY-ASSUMPTION-NOT-MET\")\n\t\t\t\treturn\n\t\t\t}\n\t\t\tt.Fatalf(\"GVC-REPLAY-CONFIRMED: panic: %v\", r)\n\t\t}\n\t}()\n")
+	for i, a := range args {
+		fmt.Fprintf(&sb, "\ta%d := %s\n", i, a)
+	}
+	var names []string
+	for i := range args {
+		names = append(names, fmt.Sprintf("a%d", i))
+	}
+	call := ""
+	if rs.Recv {
+		call = fmt.Sprintf("a0.%s(%s)", rs.Func, strings.Join(names[1:], ", "))
+	} else {
+		call = fmt.Sprintf("%s(%s)", rs.Func, strings.Join(names, ", "))
+	}
+	var rnames []string
+	for i := 0; i < rs.NResults; i++ {
+		rnames = append(rnames, fmt.Sprintf("r%d", i))
+	}
+	switch {
+	case rs.Lemma:
+		fmt.Fprintf(&sb, "\t%s\n", call)
+	case o.Kind == "post" && o.ClauseFunc != "":
+		if len(rnames) > 0 {
+			fmt.Fprintf(&sb, "\t%s := %s\n", strings.Join(rnames, ", "), call)
+		} else {
+			fmt.Fprintf(&sb, "\t%s\n", call)
+		}
+		fmt.Fprintf(&sb, "\tif !%s(%s) {\n\t\tt.Fatalf(\"GVC-REPLAY-CONFIRMED: postcondition violated: %%s\", %q)\n\t}\n", o.ClauseFunc, strings.Join(append(names, rnames...), ", "), o.Text)
+	default:
+		if len(rnames) > 0 {
+			var blanks []string
+			for range rnames {
+				blanks = append(blanks, "_")
+			}
+			fmt.Fprintf(&sb, "\t%s = %s\n", strings.Join(blanks, ", "), call)
+		} else {
+			fmt.Fprintf(&sb, "\t%s\n", call)
+		}
+	}
+	sb.WriteString("\tt.Log(\"GVC-REPLAY-NOT-REPRODUCED\")\n}\n")
+	rf.GoTest = sb.String()
+	rf.TestPkg = rs.Dir
+	res := RunReplay(p, repo, rs.Dir, rf.GoTest)
+	rf.Replayed = res
+	return strings.Contains(res, "GVC-REPLAY-CONFIRMED")
+}
+
+// RunReplay injects the test (and the generated spec files) with -overlay and
+// runs it against the real code.
+func RunReplay(p *Program, repo, dir, test string) string {
+	tmp, err := os.MkdirTemp("", "gvc-replay-")
+	if err != nil {
+		return "cannot create temp dir"
+	}
+	defer os.RemoveAll(tmp)
+	ov := map[string]map[string]string{"Replace": {}}
+	i := 0
+	for path, sf := range p.Specs {
+		i++
+		f := filepath.Join(tmp, fmt.Sprintf("spec%d.go", i))
+		os.WriteFile(f, []byte(sf.GoSource()), 0o644)
+		rel := strings.TrimPrefix(strings.TrimPrefix(path, ModPath), "/")
+		ov["Replace"][filepath.Join(repo, rel, "zz_gvc_spec.go")] = f
+	}
+	tf := filepath.Join(tmp, "replay_test.go")
+	os.WriteFile(tf, []byte(test), 0o644)
+	ov["Replace"][filepath.Join(repo, dir, "zz_gvc_replay_test.go")] = tf
+	ob, _ := json.Marshal(ov)
+	of := filepath.Join(tmp, "ov.json")
+	os.WriteFile(of, ob, 0o644)
+	cmd := exec.Command("go", "test", "-overlay", of, "-vet=off", "-count=1", "-timeout", "60s", "-run", "^TestGvcReplay$", "-v", "./"+dir+"/")
+	cmd.Dir = repo
+	cmd.Env = os.Environ()
+	done := make(chan struct{})
+	var out []byte
+	go func() { out, _ = cmd.CombinedOutput(); close(done) }()
+	select {
+	case <-done:
+	case <-time.After(150 * time.Second):
+		if cmd.Process != nil {
+			cmd.Process.Kill()
+		}
+		return "replay timed out"
+	}
+	s := string(out)
+	if len(s) > 3000 {
+		s = s[:3000]
+	}
+	return s
+}
+
+// queryModel runs the standalone script with get-value for the wanted terms.
+func queryModel(script string, want map[string]bool) (map[string]string, string) {
+	var ts []string
+	for t := range want {
+		ts = append(ts, t)
+	}
+	sort.Strings(ts)
+	sc := script
+	for _, t := range ts {
+		sc += fmt.Sprintf("(get-value (%s))\n", t)
+	}
+	for _, bin := range []string{"z3-new", "z3"} {
+		out := runSolverRaw(bin, sc, 30*time.Second)
+		lines := strings.Split(strings.TrimSpace(out), "\n")
+		if len(lines) == 0 || strings.TrimSpace(lines[0]) != "sat" {
+			continue
+		}
+		m := parseValues(strings.Join(lines[1:], "\n"), ts)
+		return m, "sat (" + bin + ")"
+	}
+	return nil, "no sat answer from the standalone solvers"
+}
+
+// queryModelPinned re-runs with the scalar part of the model pinned and asks
+// for the byte contents.
+func queryModelPinned(script string, model map[string]string, pinned map[string]bool, want map[string]bool) (map[string]string, string) {
+	idx := strings.LastIndex(script, "(check-sat)")
+	if idx < 0 {
+		return nil, ""
+	}
+	var sb strings.Builder
+	sb.WriteString(script[:idx])
+	var ps []string
+	for t := range pinned {
+		ps = append(ps, t)
+	}
+	sort.Strings(ps)
+	for _, t := range ps {
+		if v, ok := model[t]; ok {
+			fmt.Fprintf(&sb, "(assert (= %s %s))\n", t, v)
+		}
+	}
+	sb.WriteString("(check-sat)\n")
+	var ts []string
+	for t := range want {
+		ts = append(ts, t)
+	}
+	sort.Strings(ts)
+	for _, t := range ts {
+		fmt.Fprintf(&sb, "(get-value (%s))\n", t)
+	}
+	for _, bin := range []string{"z3-new", "z3"} {
+		out := runSolverRaw(bin, sb.String(), 30*time.Second)
+		lines := strings.Split(strings.TrimSpace(out), "\n")
+		if len(lines) == 0 || strings.TrimSpace(lines[0]) != "sat" {
+			continue
+		}
+		return parseValues(strings.Join(lines[1:], "\n"), ts), "sat"
+	}
+	return nil, ""
+}
+
+func runSolverRaw(bin, script string, timeout time.Duration) string {
+	f, err := os.CreateTemp("", "gvc-*.smt2")
+	if err != nil {
+		return ""
+	}
+	defer os.Remove(f.Name())
+	f.WriteString(script)
+	f.Close()
+	cmd := exec.Command(bin, fmt.Sprintf("-T:%d", int(timeout.Seconds())), f.Name())
+	out, _ := cmd.Output()
+	return string(out)
+}
+
+// parseValues parses a sequence of ((term value)) answers in order.
+func parseValues(out string, terms []string) map[string]string {
+	m := map[string]string{}
+	// split top-level s-expressions
+	depth := 0
+	start := -1
+	var exprs []string
+	for i := 0; i < len(out); i++ {
+		switch out[i] {
+		case '(':
+			if depth == 0 {
+				start = i
+			}
+			depth++
+		case ')':
+			depth--
+			if depth == 0 && start >= 0 {
+				exprs = append(exprs, out[start:i+1])
+				start = -1
+			}
+		}
+	}
+	for i, e := range exprs {
+		if i >= len(terms) {
+			break
+		}
+		if strings.HasPrefix(e, "(error") {
+			continue
+		}
+		inner := strings.TrimSpace(e[1 : len(e)-1]) // (term value)
+		if len(inner) < 2 {
+			continue
+		}
+		inner = strings.TrimSpace(inner[1 : len(inner)-1])
+		m[terms[i]] = lastSexp(inner)
+	}
+	return m
+}
+
+var _ = ssa.Function{}
+
+// ReplayFile re-runs a stored replay against the real code.
+func ReplayFile(repo, file string) int {
+	b, err := os.ReadFile(file)
+	if err != nil {
+		fmt.Println(err)
+		return 2
+	}
+	var rf replayFile
+	if err := json.Unmarshal(b, &rf); err != nil {
+		fmt.Println(err)
+		return 2
+	}
+	fmt.Printf("obligation: %s\nclause: %s\nsolver: %s\n", rf.Obligation, rf.Clause, rf.SolverOut)
+	if rf.GoTest == "" {
+		fmt.Println("no executable replay stored (", rf.Note, ")")
+		return 0
+	}
+	p, err := Load(repo, true)
+	if err != nil {
+		fmt.Println(err)
+		return 2
+	}
+	res := RunReplay(p, repo, rf.TestPkg, rf.GoTest)
+	fmt.Println(res)
+	if strings.Contains(res, "GVC-REPLAY-CONFIRMED") {
+		fmt.Println("the real code exhibits the failure")
+		return 1
+	}
+	fmt.Println("the real code does not exhibit the failure on this input")
+	return 0
 }
